@@ -122,3 +122,9 @@ def lock_held_at(c: Ctx, u: Unit, node: ast.AST, _seen: set | None = None, _chai
         if not ok:
             return False, ch
     return True, []
+
+
+def eq_atom(a: str, b: str) -> str:
+    """Canonical text of the fact atom for `a == b` (operands sorted, as sa.facts.cmp_atom does)."""
+    l, r = sorted([a, b])
+    return f'{l} == {r}'
